@@ -5,13 +5,14 @@ from vlib.proof import run_proofs
 from vlib.bounded import run_bounded
 
 LEVEL = "proof"
-KEYS = [k for k, c in FUNCS.items() if "C19" in c.props]
+KEYS = [k for k, c in FUNCS.items() if "C19" in c.props and c.proof]
+BOUNDED_KEYS = [k for k, c in FUNCS.items() if "C19" in c.props]
 
 
 def run(run, tier, seed, args):
     run_proofs(run, KEYS, tier, update_baseline=args.update_baseline, source_root=args.source_root)
     if not args.source_root:
-        run_bounded(run, KEYS, tier)
+        run_bounded(run, BOUNDED_KEYS, tier)
     run.assumptions += [
         "`tuples` and `allitems` are finite sequences; elements compare by identity/equality of the modelled value (hash/eq of user objects not modelled)",
         "Lean lemma pred_closed_iff_cycle (lemmas/Cycle.lean): a non-empty finite vertex set in which every member has a predecessor in the set contains a directed cycle — turns the proved exceptional postcondition into the property's wording",
